@@ -26,7 +26,7 @@ TRUSTED = ["A-dict (copy / clear / values / keys enumerate exactly the members)"
 ASSUMPTIONS = ["node names of distinct advertised servers are distinct", "client.close() does not raise (C06)"]
 NOT_COVERED = ["text parsing of the cluster configuration line is checked by bounded enumeration only (1..6 nodes, both use_vpc values)",
                "the constructor's duplicated field initialisation (it ends by calling reconfigure_nodes, which is verified)"]
-BUDGET = {"quick": 30, "thorough": 120}
+BUDGET = {"quick": 40, "thorough": 120}
 DEPENDS = ["C03"]      # _readsegment (the configuration reply is read through it)
 REPLAY_UNDECIDED = True
 
